@@ -29,13 +29,16 @@ func renderStable(m *service.Message) string {
 	h := m.JTMessage.Header
 	// the BCD phone is unexported; Header.Encode writes it verbatim into the frame, so it is observed through a
 	// throw-away copy of the header
+	// (the delivered bytes are rendered BEFORE Encode runs: an Encode that writes into the frame it was decoded from
+	// must not be able to hide its own traces)
+	td, body := fw.Hex(m.ExtensionFields.TerminalData), fw.Hex(m.JTMessage.Body)
 	hc := *h
 	pc := *h.Property
 	hc.Property = &pc
 	hc.ReplyID, hc.PlatformSerialNumber = 0, 0 // the writer stamps these on the shared header when it answers: not message content
 	enc := hc.Encode(nil)
 	return fmt.Sprintf("%d|%s|%d|%d|%d|%s|%s|%x", h.ID, h.TerminalPhoneNo, h.SerialNumber, h.SubPackageSum, h.SubPackageNo,
-		fw.Hex(m.JTMessage.Body), fw.Hex(m.ExtensionFields.TerminalData), enc)
+		body, td, enc)
 }
 
 // execStab: feed a session through a real packageParse with the reader's buffer discipline, keep every
@@ -158,7 +161,7 @@ func genC09(r *fw.Rng, tier string, emit func(fw.Case)) {
 		phone := frames.RandPhone(r, false)
 		var ws []pchunk
 		for j := 0; j < 6+r.Intn(20); j++ {
-			h := frames.H{ID: uint16(r.Pick([]int{0x0002, 0x0200, 0x0102, 0x0801})), Phone: phone, Serial: uint16(j)}
+			h := frames.H{ID: uint16(r.Pick([]int{0x0002, 0x0200, 0x0102, 0x0801})), Phone: phone, Serial: uint16(0x1234 + 7*j)} // never equal to the platform serial of the reply (a writer that scribbles its serial over the stored frame must show)
 			body := bytes.Repeat([]byte{byte(0x20 + j)}, 36+r.Intn(3))
 			ws = append(ws, pchunk{0, frames.Build(h, body)})
 		}
